@@ -119,5 +119,5 @@ def run(case, out):
 
 
 SUBS = {
-    "search": Sub(run, strategy, quick=50, thorough=1200, quick_shards=8),
+    "search": Sub(run, strategy, quick=50, thorough=300, quick_shards=8),
 }
